@@ -41,7 +41,16 @@ type spec struct {
 	Exact           bool
 	Extern          map[string]bool // methods whose result is an object handed in by the caller
 	LeanName        string
+	View            map[string]bool // pointer parameters of foreign types: the fields read become value parameters
 }
+
+// pointer fields that are followed (the pointed-to record becomes a nested structure); every other
+// pointer to a struct is represented by whether it is non-nil
+var nestedFields = map[string]bool{"healthChecks": true}
+
+// calls that only report: `x.metricsCollector.UpdateBackendHealth(name, healthy)` is kept as an entry
+// appended to the field `fx` of the structure of `x` (the order of reports is part of the behaviour)
+var effectCalls = map[string]bool{"UpdateBackendHealth": true}
 
 var specs = []spec{
 	{Pkg: "internal/circuitbreaker", Recv: "CircuitBreaker", Name: "setState"},
@@ -51,6 +60,11 @@ var specs = []spec{
 	{Pkg: "internal/ratelimiter", Recv: "TokenBucketRateLimiter", Name: "Allow", Extern: map[string]bool{"getOrCreateBucket": true}},
 	{Pkg: "internal/loadbalancer", Recv: "", Name: "jumpHash", Exact: true},
 	{Pkg: "internal/loadbalancer", Recv: "Backend", Name: "eligible"},
+	{Pkg: "internal/loadbalancer", Recv: "LoadBalancer", Name: "MarkBackendUnhealthy"},
+	{Pkg: "internal/loadbalancer", Recv: "LoadBalancer", Name: "IsBackendHealthy"},
+	{Pkg: "internal/loadbalancer", Recv: "LoadBalancer", Name: "handleHealthCheckFailure"},
+	{Pkg: "internal/loadbalancer", Recv: "LoadBalancer", Name: "processHealthCheckResponse", View: map[string]bool{"resp": true}},
+	{Pkg: "internal/loadbalancer", Recv: "LoadBalancer", Name: "handlePassiveHealthCheck", View: map[string]bool{"r": true}},
 }
 
 var (
@@ -210,6 +224,13 @@ func leanType(t types.Type, exact bool) (string, bool) {
 		return "", false
 	case *types.Signature:
 		return "Bool", true // is the function value non-nil
+	case *types.Map:
+		kt, ok1 := leanType(v.Key(), exact)
+		vt, ok2 := leanType(v.Elem(), exact)
+		if ok1 && ok2 && kt == "String" {
+			return "(String → " + vt + ")", true // a total function: absent keys read as the zero value, as in Go
+		}
+		return "", false
 	case *types.Slice:
 		et, ok := leanType(v.Elem(), exact)
 		if !ok {
@@ -217,9 +238,27 @@ func leanType(t types.Type, exact bool) (string, bool) {
 		}
 		return "(List " + et + ")", true
 	case *types.Pointer:
+		if n := namedOf(v); n != nil {
+			if _, ok := n.Underlying().(*types.Struct); ok {
+				return "Bool", true // is the pointer non-nil (nested records are handled by the caller)
+			}
+		}
 		return "", false
 	}
 	return "", false
+}
+
+// fieldType: the Lean type of a struct field; pointer fields on the `nestedFields` list become the
+// structure of the record they point to
+func fieldType(fl *types.Var, exact bool) (string, bool) {
+	if p, ok := fl.Type().(*types.Pointer); ok && nestedFields[fl.Name()] {
+		if n := namedOf(p); n != nil {
+			if _, ok := n.Underlying().(*types.Struct); ok {
+				return needStruct(n), true
+			}
+		}
+	}
+	return leanType(fl.Type(), exact)
 }
 
 // ---------------------------------------------------------------------------------------------
@@ -239,7 +278,12 @@ type fn struct {
 	failed   bool
 	aux      []string // auxiliary definitions (loops)
 	loopN    int
+	views    map[types.Object]string // foreign pointer parameters read field by field
+	viewPars []param                 // the value parameters those reads became
 }
+
+var structsWithFx = map[string]bool{}
+var noRepr = map[string]bool{}
 
 type stateVar struct {
 	name  string
@@ -398,6 +442,35 @@ func (f *fn) expr(e ast.Expr) string {
 			}
 			return ident(s.name) + "." + ident(v.Sel.Name)
 		}
+		// a field of a nested record: x.healthChecks.passiveTimeout
+		if inner, ok := v.X.(*ast.SelectorExpr); ok && nestedFields[inner.Sel.Name] {
+			if s, ok := f.isState(inner.X); ok {
+				if _, ok := leanType(f.typeOf(v), f.spec.Exact); !ok {
+					return f.fail(v, "field %s has no Lean type", exprText(v))
+				}
+				return ident(s.name) + "." + ident(inner.Sel.Name) + "." + ident(v.Sel.Name)
+			}
+		}
+		// a field of a foreign object handed in by pointer: a value parameter of its own
+		if id, ok := v.X.(*ast.Ident); ok {
+			if o := f.l.info.Uses[id]; o != nil && f.views[o] != "" {
+				lt, ok := leanType(f.typeOf(v), f.spec.Exact)
+				if !ok {
+					return f.fail(v, "field %s has no Lean type", exprText(v))
+				}
+				name := id.Name + "_" + v.Sel.Name
+				found := false
+				for _, p := range f.viewPars {
+					if p.name == name {
+						found = true
+					}
+				}
+				if !found {
+					f.viewPars = append(f.viewPars, param{name, nil, lt})
+				}
+				return ident(name)
+			}
+		}
 		return f.fail(v, "selector %s", exprText(v))
 	case *ast.UnaryExpr:
 		switch v.Op {
@@ -410,7 +483,9 @@ func (f *fn) expr(e ast.Expr) string {
 	case *ast.BinaryExpr:
 		// comparison with nil of a function-valued field
 		if id, ok := v.Y.(*ast.Ident); ok && id.Name == "nil" {
-			if _, isSig := f.typeOf(v.X).Underlying().(*types.Signature); isSig {
+			_, isSig := f.typeOf(v.X).Underlying().(*types.Signature)
+			_, isPtr := f.typeOf(v.X).(*types.Pointer)
+			if isSig || isPtr {
 				if v.Op == token.NEQ {
 					return f.expr(v.X)
 				}
@@ -474,6 +549,11 @@ func (f *fn) expr(e ast.Expr) string {
 			return "(" + x + " || " + y + ")"
 		}
 		return f.fail(v, "binary %s", v.Op)
+	case *ast.IndexExpr:
+		if _, isMap := f.typeOf(v.X).Underlying().(*types.Map); isMap {
+			return "(" + f.expr(v.X) + " " + f.expr(v.Index) + ")"
+		}
+		return f.fail(v, "index of a non-map")
 	case *ast.CallExpr:
 		return f.callExpr(v)
 	}
@@ -586,7 +666,38 @@ func (f *fn) retTuple(vals []string) string {
 	return t
 }
 
+// isLogging: a statement that only writes a log line — a call chain rooted at the logging package
+// or at a zerolog value
+func (f *fn) isLogging(c *ast.CallExpr) bool {
+	var e ast.Expr = c
+	for {
+		switch v := e.(type) {
+		case *ast.CallExpr:
+			e = v.Fun
+		case *ast.SelectorExpr:
+			if id, ok := v.X.(*ast.Ident); ok {
+				if pn, ok := f.l.info.Uses[id].(*types.PkgName); ok {
+					return strings.HasSuffix(pn.Imported().Path(), "/internal/logging")
+				}
+			}
+			if t := f.typeOf(v.X); t != nil {
+				if n := namedOf(t); n != nil && n.Obj().Pkg() != nil && strings.Contains(n.Obj().Pkg().Path(), "zerolog") {
+					if _, isCall := v.X.(*ast.CallExpr); !isCall {
+						return true
+					}
+				}
+			}
+			e = v.X
+		default:
+			return false
+		}
+	}
+}
+
 func (f *fn) isIgnoredCall(c *ast.CallExpr) bool {
+	if f.isLogging(c) {
+		return true
+	}
 	sel, ok := c.Fun.(*ast.SelectorExpr)
 	if !ok {
 		return false
@@ -617,6 +728,20 @@ func (f *fn) translatedCallee(c *ast.CallExpr) (*fn, ast.Expr) {
 
 // callStmt: a call of a translated method for its effect on the objects it is given
 func (f *fn) callStmt(c *ast.CallExpr, ind string, k cont) string {
+	if sel, ok := c.Fun.(*ast.SelectorExpr); ok && effectCalls[sel.Sel.Name] {
+		if inner, ok := sel.X.(*ast.SelectorExpr); ok {
+			if s, ok := f.isState(inner.X); ok {
+				var args []string
+				for _, a := range c.Args {
+					args = append(args, f.expr(a))
+				}
+				structsWithFx[s.lean] = true
+				n := ident(s.name)
+				return ind + "let " + n + " := { " + n + " with fx := " + n + ".fx ++ [(" + strings.Join(args, ", ") + ")] }\n" + k(ind)
+			}
+		}
+		return ind + f.fail(c, "effect call %s not rooted at a tracked object", exprText(c.Fun))
+	}
 	g, recv := f.translatedCallee(c)
 	if g == nil {
 		return ind + f.fail(c, "call statement %s", exprText(c.Fun))
@@ -672,16 +797,40 @@ func (f *fn) callStmt(c *ast.CallExpr, ind string, k cont) string {
 	return s + k(ind)
 }
 
+// assignPath: `s.f = rhs` or `s.n.f = rhs` (n a nested record) as a record update of the object s
+func (f *fn) assignPath(v *ast.SelectorExpr, rhs string) (string, bool) {
+	if s, ok := f.isState(v.X); ok {
+		n := ident(s.name)
+		return "let " + n + " := { " + n + " with " + ident(v.Sel.Name) + " := " + rhs + " }", true
+	}
+	if inner, ok := v.X.(*ast.SelectorExpr); ok && nestedFields[inner.Sel.Name] {
+		if s, ok := f.isState(inner.X); ok {
+			n, m := ident(s.name), ident(inner.Sel.Name)
+			return "let " + n + " := { " + n + " with " + m + " := { " + n + "." + m + " with " + ident(v.Sel.Name) + " := " + rhs + " } }", true
+		}
+	}
+	return "", false
+}
+
 func (f *fn) assign(lhs ast.Expr, rhs string, ind string) string {
 	switch v := lhs.(type) {
+	case *ast.IndexExpr:
+		// m[k] = rhs on a map held in a field
+		if sel, ok := v.X.(*ast.SelectorExpr); ok {
+			if _, isMap := f.typeOf(v.X).Underlying().(*types.Map); isMap {
+				if st, ok := f.assignPath(sel, "(mapSet "+f.expr(v.X)+" "+f.expr(v.Index)+" "+rhs+")"); ok {
+					return ind + st + "\n"
+				}
+			}
+		}
 	case *ast.Ident:
 		if v.Name == "_" {
 			return ""
 		}
 		return ind + "let " + ident(v.Name) + " := " + rhs + "\n"
 	case *ast.SelectorExpr:
-		if s, ok := f.isState(v.X); ok {
-			return ind + "let " + ident(s.name) + " := { " + ident(s.name) + " with " + ident(v.Sel.Name) + " := " + rhs + " }\n"
+		if st, ok := f.assignPath(v, rhs); ok {
+			return ind + st + "\n"
 		}
 	}
 	return ind + f.fail(lhs, "assignment target %s", exprText(lhs)) + "\n"
@@ -737,6 +886,9 @@ func (f *fn) block(list []ast.Stmt, ind string, k cont) string {
 				if sel, ok := c.Fun.(*ast.SelectorExpr); ok && f.spec.Extern[sel.Sel.Name] {
 					return rest(ind)
 				}
+			}
+			if c, ok := s.Rhs[0].(*ast.CallExpr); ok && f.isLogging(c) {
+				return rest(ind) // a logger value: only used by log statements
 			}
 			rhs := f.expr(s.Rhs[0])
 			lt := f.lt(s.Lhs[0])
@@ -1000,6 +1152,13 @@ func (f *fn) translate() string {
 		if o == nil {
 			return
 		}
+		if f.spec.View[id.Name] {
+			if f.views == nil {
+				f.views = map[types.Object]string{}
+			}
+			f.views[o] = id.Name
+			return
+		}
 		if p, ok := o.Type().(*types.Pointer); ok {
 			if n := namedOf(p); n != nil {
 				if _, ok := n.Underlying().(*types.Struct); ok {
@@ -1083,6 +1242,9 @@ func (f *fn) translate() string {
 		if unusedParams[p.name] {
 			continue
 		}
+		sig = append(sig, "("+ident(p.name)+" : "+p.lean+")")
+	}
+	for _, p := range f.viewPars {
 		sig = append(sig, "("+ident(p.name)+" : "+p.lean+")")
 	}
 	if f.usesNow {
@@ -1173,17 +1335,55 @@ func main() {
 	var b strings.Builder
 	b.WriteString("-- GENERATED by /verif/go/trans from the current /repo source. Do not edit.\n")
 	b.WriteString("namespace Helios.Generated.Code\n\n")
-	for _, name := range structOrder {
+	b.WriteString("/-- `m[k] = v` on a Go map read as a total function -/\ndef mapSet {α : Type} (m : String → α) (k : String) (v : α) : String → α :=\n  fun k' => if k' = k then v else m k'\n\n")
+	// resolve nested records first (the list grows while it is walked), then emit them before
+	// the structures that contain them
+	for i := 0; i < len(structOrder); i++ {
+		st := structsNeeded[structOrder[i]].Underlying().(*types.Struct)
+		for j := 0; j < st.NumFields(); j++ {
+			fieldType(st.Field(j), false)
+		}
+	}
+	emitted := map[string]bool{}
+	var emit func(name string)
+	emit = func(name string) {
+		if emitted[name] {
+			return
+		}
+		emitted[name] = true
 		n := structsNeeded[name]
 		st := n.Underlying().(*types.Struct)
-		fmt.Fprintf(&b, "/-- `%s.%s` (fields with a Lean representation) -/\nstructure %s where\n", strings.TrimPrefix(n.Obj().Pkg().Path(), modPath), n.Obj().Name(), name)
+		var lines []string
 		for i := 0; i < st.NumFields(); i++ {
 			fl := st.Field(i)
-			if lt, ok := leanType(fl.Type(), false); ok {
-				fmt.Fprintf(&b, "  %s : %s\n", ident(fl.Name()), lt)
+			if lt, ok := fieldType(fl, false); ok {
+				if _, isStruct := structsNeeded[lt]; isStruct {
+					emit(lt)
+				}
+				lines = append(lines, fmt.Sprintf("  %s : %s\n", ident(fl.Name()), lt))
 			}
 		}
-		b.WriteString("  deriving Repr\n\n")
+		if structsWithFx[name] {
+			lines = append(lines, "  fx : List (String × Bool)   -- reports made to the metrics collector, in order\n")
+		}
+		deriving := "  deriving Repr\n"
+		if strings.Contains(strings.Join(lines, ""), "→") {
+			deriving = ""
+		}
+		for _, l := range lines {
+			f := strings.Fields(l)
+			if _, nested := structsNeeded[f[len(f)-1]]; nested && noRepr[f[len(f)-1]] {
+				deriving = ""
+			}
+		}
+		if deriving == "" {
+			noRepr[name] = true
+		}
+		fmt.Fprintf(&b, "/-- `%s.%s` (fields with a Lean representation) -/\nstructure %s where\n%s%s\n",
+			strings.TrimPrefix(n.Obj().Pkg().Path(), modPath), n.Obj().Name(), name, strings.Join(lines, ""), deriving)
+	}
+	for _, name := range structOrder {
+		emit(name)
 	}
 	for _, d := range defs {
 		b.WriteString(d)
